@@ -101,7 +101,9 @@ Inductive sdesc :=
   | SCtor (t : str)                      (* constructor *)
   | SModproc (g : str) (i : nat).        (* procedure of the i-th module procedure of a generic *)
 (* a resolved (or not) reference: where, which name was looked up, the entity found *)
-Record res := { r_scope : list str; r_slot : sdesc; r_name : str; r_ent : option ent }.
+(* which dictionaries the lookup goes through *)
+Inductive look := LType | LProc | LProcAbs.
+Record res := { r_scope : list str; r_slot : sdesc; r_look : look; r_name : str; r_ent : option ent }.
 
 Definition lookup_proc_then_abs (st : store) (E : env) (n : str) : option ent :=
   match assoc_get n (st_get (e_procs E) st) with
@@ -117,7 +119,7 @@ Definition var_slots (st : store) (E : env) (mk : str -> sdesc) (vs : list var) 
   flat_map (fun v => match v_ref v with
                      | Some r => let ne := resolve_tyref st E r in
                                  [{| r_scope := s_path (e_scope E); r_slot := mk (v_name v);
-                                     r_name := fst ne; r_ent := snd ne |}]
+                                     r_look := (match r with TRType _ => LType | TRProc _ => LProcAbs end); r_name := fst ne; r_ent := snd ne |}]
                      | None => []
                      end) vs.
 Fixpoint indexed {A} (i : nat) (l : list A) : list (nat * A) :=
@@ -127,27 +129,27 @@ Definition type_slots (st : store) (E : env) (T : dtype) : list res :=
   let P := s_path (e_scope E) in
   let procs := st_get (e_procs E) st in
   (match t_extends T with
-   | Some n => [{| r_scope := P; r_slot := SExtends (t_name T); r_name := n;
+   | Some n => [{| r_scope := P; r_slot := SExtends (t_name T); r_look := LType; r_name := n;
                    r_ent := assoc_get n (st_get (e_types E) st) |}]
    | None => []
    end)
   ++ var_slots st E (SComp (t_name T)) (t_comps T)
   ++ flat_map (fun b =>
        (match b_proto b with
-        | Some n => [{| r_scope := P; r_slot := SBindProto (t_name T) (b_name b); r_name := n;
+        | Some n => [{| r_scope := P; r_slot := SBindProto (t_name T) (b_name b); r_look := LProcAbs; r_name := n;
                         r_ent := lookup_proc_then_abs st E n |}]
         | None => []
         end)
        ++ (if b_deferred b then []
            else map (fun it => {| r_scope := P; r_slot := SBindTarget (t_name T) (b_name b) (fst it);
-                                  r_name := snd it; r_ent := assoc_get (snd it) procs |})
+                                  r_look := LProc; r_name := snd it; r_ent := assoc_get (snd it) procs |})
                     (indexed 0 (b_targets b)))) (t_binds T)
-  ++ map (fun it => {| r_scope := P; r_slot := SFinal (t_name T) (fst it); r_name := snd it;
+  ++ map (fun it => {| r_scope := P; r_slot := SFinal (t_name T) (fst it); r_look := LProc; r_name := snd it;
                        r_ent := assoc_get (snd it) procs |}) (indexed 0 (t_finals T))
-  ++ [{| r_scope := P; r_slot := SCtor (t_name T); r_name := t_name T;
+  ++ [{| r_scope := P; r_slot := SCtor (t_name T); r_look := LProc; r_name := t_name T;
          r_ent := assoc_get (t_name T) procs |}].
 Definition generic_slots (st : store) (E : env) (G : generic) : list res :=
-  map (fun it => {| r_scope := s_path (e_scope E); r_slot := SModproc (g_name G) (fst it); r_name := snd it;
+  map (fun it => {| r_scope := s_path (e_scope E); r_slot := SModproc (g_name G) (fst it); r_look := LProc; r_name := snd it;
                     r_ent := assoc_get (snd it) (st_get (e_procs E) st) |}) (indexed 0 (g_modprocs G)).
 
 (* ------------------------------------------------------------------ traversal *)
@@ -252,33 +254,33 @@ Definition spec_tyref (all : list srec) (p : list str) (r : tyref) : option ent 
 Definition spec_var_slots (all : list srec) (Sc : srec) (mk : str -> sdesc) (vs : list var) : list res :=
   flat_map (fun v => match v_ref v with
                      | Some r => [{| r_scope := s_path Sc; r_slot := mk (v_name v);
-                                     r_name := match r with TRType n => n | TRProc n => n end;
+                                     r_look := (match r with TRType _ => LType | TRProc _ => LProcAbs end); r_name := match r with TRType n => n | TRProc n => n end;
                                      r_ent := spec_tyref all (s_path Sc) r |}]
                      | None => []
                      end) vs.
 Definition spec_type_slots (all : list srec) (Sc : srec) (T : dtype) : list res :=
   let P := s_path Sc in
   (match t_extends T with
-   | Some n => [{| r_scope := P; r_slot := SExtends (t_name T); r_name := n; r_ent := resolve_in all P CType n |}]
+   | Some n => [{| r_scope := P; r_slot := SExtends (t_name T); r_look := LType; r_name := n; r_ent := resolve_in all P CType n |}]
    | None => []
    end)
   ++ spec_var_slots all Sc (SComp (t_name T)) (t_comps T)
   ++ flat_map (fun b =>
        (match b_proto b with
-        | Some n => [{| r_scope := P; r_slot := SBindProto (t_name T) (b_name b); r_name := n;
+        | Some n => [{| r_scope := P; r_slot := SBindProto (t_name T) (b_name b); r_look := LProcAbs; r_name := n;
                         r_ent := resolve_proc_or_abs all P n |}]
         | None => []
         end)
        ++ (if b_deferred b then []
            else map (fun it => {| r_scope := P; r_slot := SBindTarget (t_name T) (b_name b) (fst it);
-                                  r_name := snd it; r_ent := resolve_in all P CProc (snd it) |})
+                                  r_look := LProc; r_name := snd it; r_ent := resolve_in all P CProc (snd it) |})
                     (indexed 0 (b_targets b)))) (t_binds T)
-  ++ map (fun it => {| r_scope := P; r_slot := SFinal (t_name T) (fst it); r_name := snd it;
+  ++ map (fun it => {| r_scope := P; r_slot := SFinal (t_name T) (fst it); r_look := LProc; r_name := snd it;
                        r_ent := resolve_in all P CProc (snd it) |}) (indexed 0 (t_finals T))
-  ++ [{| r_scope := P; r_slot := SCtor (t_name T); r_name := t_name T;
+  ++ [{| r_scope := P; r_slot := SCtor (t_name T); r_look := LProc; r_name := t_name T;
          r_ent := resolve_in all P CProc (t_name T) |}].
 Definition spec_generic_slots (all : list srec) (Sc : srec) (G : generic) : list res :=
-  map (fun it => {| r_scope := s_path Sc; r_slot := SModproc (g_name G) (fst it); r_name := snd it;
+  map (fun it => {| r_scope := s_path Sc; r_slot := SModproc (g_name G) (fst it); r_look := LProc; r_name := snd it;
                     r_ent := resolve_in all (s_path Sc) CProc (snd it) |}) (indexed 0 (g_modprocs G)).
 Definition spec_scope_slots (all : list srec) (Sc : srec) : list res :=
   flat_map (spec_type_slots all Sc) (s_types Sc) ++ flat_map (spec_generic_slots all Sc) (s_generics Sc)
